@@ -161,6 +161,17 @@ def catalogue_cases(ids: IdGen, tier: str, seed: int = 1):
                 t2 = tuples2[(si * 11 + ri * 5 + 1) % len(tuples2)]
                 cfg2 = legalize(cfg_all(t2), d)
                 cases.append(Case(ids.next(), d, cfg2, "plain", {"part": "catalogue"}))
+    # raw identifiers as variant names (open model name, learned from as_str): all string items must agree
+    from .spec import make_decl
+    for ri, r in enumerate(["u8", "i32"] if tier == "quick" else ["u8", "i32", "i64", "u128", "isize"]):
+        d = make_decl(r, [("r#type", "4", None), ("r#match", None, None), ("Plain", "1", None), ("r#fn", "9", "renamed"),
+                          ("r#struct", None, None), ("r#loop", "2", None)], shape="raw_idents")
+        for k, t in enumerate(({"as_str": "match", "from_str": "match", "FromStr": "table", "iter": "table"},
+                               {"as_str": "table", "from_str": "table", "FromStr": "match", "iter": "next_and_back"},
+                               {"as_str": "auto", "from_str": "auto", "FromStr": "auto", "iter": "auto"},
+                               {"as_str": "match", "from_str": "table", "FromStr": "auto", "iter": "table_inline"})):
+            without = ("range",) if t["iter"] == "table_inline" else ()
+            cases.append(Case(ids.next(), d, legalize(cfg_all(t, without=without), d), "plain", {"part": "catalogue"}))
     return cases
 
 
@@ -763,6 +774,11 @@ def dom_corpus(tier: str, seed: int):
         for v, txt in zip(dd.variants, ['r"raw\\n"', 'r#"q"uote"#', '"\\u{41}"', '"tab\\x09here"', 'r##"h#"##']):
             v.rename_text = txt
         add(dd, {"feat": ["rename_spelling"]}, modes_i=ri)
+        # 4e. raw identifiers as variant names (the name is left open in the model, see spec.Variant.name)
+        dd = make_decl(r, [("r#type", None, None), ("r#match", "5", None), ("Plain", None, None), ("r#fn", None, "renamed"),
+                           ("r#struct", "2", None)], shape="dom_raw_idents")
+        add(dd, {"feat": ["raw_idents", "implicit_after_explicit"]}, modes_i=ri)
+        add(dd, {"feat": ["raw_idents", "implicit_after_explicit"]}, modes_i=ri + 3)
         # 4c. enums named like prelude / core items, repr given through cfg_attr and before the derive
         # (single letters: the names generic parameters of generated methods would have)
         for ename in (["Option", "Copy", "B", "F"] if tier == "quick" else
